@@ -42,9 +42,57 @@ func (l layout) String() string {
 // failing statement builders: return the statements of the innermost
 // function (parameter x = 0, s = "a") and a function telling where the failure
 // must be reported after rendering, plus an optional trailing builtin frame.
+type failOpLit struct {
+	name  string
+	build func(l layout) (body []*Node, at func() Pos, builtin string)
+}
+
 type failOp struct {
 	name  string
 	build func(l layout) (body []*Node, at func() Pos, builtin string)
+	// inner, if set, names a function nested in the innermost function of the
+	// chain: the failure happens inside it, `at` is its position there, and
+	// callAt is where the innermost chain function calls it.
+	inner        string
+	innerBuiltin string // a built-in frame between the chain function and the nested one
+	callAt       func() Pos
+}
+
+// freeVarOp: a function nested in the innermost chain function (a def, a
+// lambda, or a lambda called back by max) reads a local of the enclosing
+// function before it has been assigned; the failing operation is that read.
+func freeVarOp(name, form string) failOp {
+	var callNode *Node
+	op := failOp{name: name}
+	switch form {
+	case "def":
+		op.inner = "inner"
+	case "lambda":
+		op.inner = "lambda"
+	case "max-key":
+		op.inner, op.innerBuiltin = "lambda", "max"
+	}
+	op.build = func(l layout) ([]*Node, func() Pos, string) {
+		z := Name("z")
+		z.PadCols, z.NL = l.P2, l.N2
+		use := withFill(l.K, Bin("+", Num(1), z))
+		var body []*Node
+		switch form {
+		case "def":
+			body = append(body, Def("inner", nil, []*Node{Return(Paren(use))}))
+			callNode = Call(Name("inner"))
+		case "lambda":
+			callNode = Call(Paren(Lambda(nil, Paren(use))))
+		case "max-key":
+			callNode = Call(Name("max"), List(Num(1), Num(2)))
+			callNode.Named = []NamedArg{{"key", Lambda([]*Param{P("e")}, Paren(use))}}
+		}
+		callNode.OpPad = l.P1
+		body = append(body, assignParen(callNode), Assign("=", Name("z"), Num(1)))
+		return body, func() Pos { return z.Start }, ""
+	}
+	op.callAt = func() Pos { return callNode.OpPos }
+	return op
 }
 
 func consts(k int) []*Node {
@@ -72,7 +120,7 @@ func withFill(k int, e *Node) *Node {
 func failOps() []failOp {
 	padR := func(n *Node, l layout) *Node { n.PadCols, n.NL = l.P2, l.N2; return n }
 	padOp := func(n *Node, l layout) *Node { n.OpPad, n.OpNL = l.P1, l.N1; return n }
-	return []failOp{
+	lits := []failOpLit{
 		{"binary", func(l layout) ([]*Node, func() Pos, string) {
 			e := padOp(Bin("+", Name("x"), padR(Name("s"), l)), l)
 			return []*Node{assignParen(withFill(l.K, e))}, func() Pos { return e.OpPos }, ""
@@ -181,9 +229,18 @@ func failOps() []failOp {
 			return []*Node{st}, func() Pos { return d.OpPos }, ""
 		}},
 	}
+	var out []failOp
+	for _, l := range lits {
+		out = append(out, failOp{name: l.name, build: l.build})
+	}
+	return out
 }
 
 func padRcols(n *Node, l layout) *Node { n.PadCols = l.P2; return n }
+
+func allFailOps() []failOp {
+	return append(failOps(), freeVarOp("freevar-in-def", "def"), freeVarOp("freevar-in-lambda", "lambda"), freeVarOp("freevar-in-max-key", "max-key"))
+}
 
 // link kinds: how function i calls function i+1
 var linkKinds = []string{"direct", "lambda", "comp", "sorted", "max", "method-arg"}
@@ -266,7 +323,15 @@ func chain(links []string, op failOp, l layout, linkLayout layout) (stmts []*Nod
 				fr = append(fr, frame{Name: s.builtin, Builtin: true})
 			}
 		}
-		fr = append(fr, frame{Name: fname(d), Pos: at()})
+		if op.inner != "" {
+			fr = append(fr, frame{Name: fname(d), Pos: op.callAt()})
+			if op.innerBuiltin != "" {
+				fr = append(fr, frame{Name: op.innerBuiltin, Builtin: true})
+			}
+			fr = append(fr, frame{Name: op.inner, Pos: at()})
+		} else {
+			fr = append(fr, frame{Name: fname(d), Pos: at()})
+		}
 		if builtin != "" {
 			fr = append(fr, frame{Name: builtin, Builtin: true})
 		}
@@ -290,6 +355,18 @@ var fileOpts = &syntax.FileOptions{Set: true, While: true, TopLevelControl: true
 
 // checkCase runs one case; "" = agreement.
 func checkCase(k kase, ops map[string]failOp) (msg string, src string) {
+	if strings.HasPrefix(k.Op, "seq:") {
+		var order []int
+		for _, l := range k.Links {
+			var i int
+			fmt.Sscan(l, &i)
+			order = append(order, i)
+		}
+		return checkSeq(strings.TrimPrefix(k.Op, "seq:"), order)
+	}
+	if strings.HasPrefix(k.Op, "rec:") {
+		return checkRecursive(strings.TrimPrefix(k.Op, "rec:"), len(k.Links))
+	}
 	op, ok := ops[k.Op]
 	if !ok {
 		return "harness: unknown op " + k.Op, ""
@@ -365,7 +442,7 @@ var lineBoundary = []int{0, 1, 14, 15, 16, 17, 30, 31, 32, 33}
 var fillBoundary = []int{0, 1, 5, 6, 7, 8, 9, 14, 15, 16, 17}
 
 func enumerate(thorough bool, yield func(level string, k kase) bool) {
-	ops := failOps()
+	ops := allFailOps()
 	zero := layout{}
 	// level 1: every op, every chain depth 1..8 with each link kind, canonical layout
 	for _, op := range ops {
@@ -471,12 +548,49 @@ func enumerate(thorough bool, yield func(level string, k kase) bool) {
 			}
 		}
 	}
+	// level 7: state left in a compiled function by earlier position queries: every ordered
+	// pair and triple (quadruple: thorough) of failing operations of one function, and
+	// recursive activations of one function suspended at different operations
+	maxOrder := 3
+	if thorough {
+		maxOrder = 4
+	}
+	for _, sv := range seqVariants() {
+		_, _, _, nops := sv.build()
+		var rec func(cur []string) bool
+		rec = func(cur []string) bool {
+			if len(cur) > 0 {
+				if !yield("L7:repeated and recursive position queries on one function", kase{Links: append([]string(nil), cur...), Op: "seq:" + sv.name}) {
+					return false
+				}
+			}
+			if len(cur) == maxOrder {
+				return true
+			}
+			for i := 0; i < nops; i++ {
+				if !rec(append(cur, fmt.Sprint(i))) {
+					return false
+				}
+			}
+			return true
+		}
+		if !rec(nil) {
+			return
+		}
+	}
+	for _, shape := range []string{"call-then-fail", "fail-before-call", "same-expression"} {
+		for d := 0; d <= 6; d++ {
+			if !yield("L7:repeated and recursive position queries on one function", kase{Links: make([]string, d), Op: "rec:" + shape}) {
+				return
+			}
+		}
+	}
 }
 
 func worker(c *fw.Ctx) *fw.Stats {
 	st := fw.NewStats()
 	ops := map[string]failOp{}
-	for _, o := range failOps() {
+	for _, o := range allFailOps() {
 		ops[o.name] = o
 	}
 	var idx, mine int64 = -1, 0
@@ -540,7 +654,7 @@ func replay(c *fw.Ctx, raw json.RawMessage) []fw.Viol {
 		fw.Fatal("bad case: %v", err)
 	}
 	ops := map[string]failOp{}
-	for _, o := range failOps() {
+	for _, o := range allFailOps() {
 		ops[o.name] = o
 	}
 	if msg, _ := checkCase(k, ops); msg != "" {
